@@ -525,6 +525,23 @@ func (vm *VM) moreGeneralStack() {
 	vm.st[3] = Addr(top)
 }
 
+// growStack grows the register stacks, if necessary, so that the stacks can
+// hold numReg registers starting from the current frame pointers.
+func (vm *VM) growStack(numReg StackShift) {
+	if vm.fp[0]+Addr(numReg[0]) >= vm.st[0] {
+		vm.moreIntStack()
+	}
+	if vm.fp[1]+Addr(numReg[1]) >= vm.st[1] {
+		vm.moreFloatStack()
+	}
+	if vm.fp[2]+Addr(numReg[2]) >= vm.st[2] {
+		vm.moreStringStack()
+	}
+	if vm.fp[3]+Addr(numReg[3]) >= vm.st[3] {
+		vm.moreGeneralStack()
+	}
+}
+
 func (vm *VM) nextCall() bool {
 	for i := len(vm.calls) - 1; i >= 0; i-- {
 		call := vm.calls[i]
@@ -597,6 +614,7 @@ func (vm *VM) nextCall() bool {
 				vm.fn = call.cl.fn
 				vm.vars = call.cl.vars
 				vm.renderer = call.renderer
+				vm.growStack(vm.fn.NumReg)
 				return true
 			}
 			vm.fp = call.fp
